@@ -154,8 +154,8 @@ def _jde_inputs(seed, n, shard, nshards):
     import math
     rng = random.Random("%s/%s" % (seed, shard))
     out = []
-    nb = n // 3
-    for _ in range(nb // 9 + 1):
+    nb = n // 2
+    for _ in range(nb // 19 + 1):
         base = float(rng.randrange(0, 5400000)) + rng.choice([0.0, 0.5])
         for off in (0.0, 1, -1, 2, -2, 1e-6 / 86400, -1e-6 / 86400, 1.0 / 86400, -1.0 / 86400):
             if isinstance(off, int):
@@ -166,6 +166,20 @@ def _jde_inputs(seed, n, shard, nshards):
                 x = base + off
             if 0.0 <= x <= 5.4e6:
                 out.append(x)
+        # a fraction of a second after 0h UT (the library treats "at 0h UT" apart), and around the instant of the day at
+        # which the mean sidereal time passes through zero (the instant is only chosen with the library's help)
+        day0 = math.floor(base) + 0.5
+        for off in (2e-7, 5e-7, 1e-6, 3e-6):
+            out.append(day0 + off)
+        try:
+            from pymeeus.Epoch import Epoch
+            m0 = Epoch(day0).mean_sidereal_time()
+            wrap = day0 + (1.0 - m0) / 1.00273790935
+            for off in (1e-7, 1e-6, 5e-6, 1.2e-5, -1e-6, -1.2e-5):
+                out.append(wrap + off)
+        except Exception:
+            pass
+    rng.shuffle(out)
     while len(out) < n:
         out.append(rng.uniform(0.0, 5.4e6))
     return out[:n]
